@@ -678,6 +678,7 @@ var c11Assumptions = []string{
 	"named scalar leaf types are excluded until C16 is repaired (C11_NAMED_SCALARS=1 enables them); *[]T, *map and [][]T are excluded because they panic (C11_PANICKY_COLLECTIONS=1 enables them)",
 	"integers are parsed with base 0 (as parse.parseNumber does), so a small share of integer texts carry a 0x prefix or a + sign",
 	"two leaves whose names coincide legitimately share one variable; such a group is only given a value when all its leaves have the same type",
+	"root-cause keys (known_findings.json): tag-join-lost-boundary = a leaf below a level whose dials tag ends in an upper-case letter (MY_HOST, hostID) is mis-named; upper-tag-initialism-split = an UPPER_SNAKE tag containing IDLE/IDS/URLS/VMS is mis-named (1 case in 20 draws such words); flatten-duplicate-field = two leaves whose Go names concatenate to the same identifier panic in reflect.StructOf; failures are given these keys only for leaves classified as such by construction",
 	"stacking goes through the verif-tagged export VerifCompose because reflect-built types cannot be type arguments of Config",
 }
 
